@@ -36,7 +36,8 @@ class C04(Check):
 
     def pinned(self, tier):
         for c in lintlib.pinned_lint_cases(tier, per_dialect=3, mutants_per_dialect=4, templates=100, salt=4):
-            c["entry"] = "all" if c.get("origin", "").startswith("fixed") else "lint_string"
+            o = c.get("origin", "")
+            c["entry"] = "all" if o.startswith("fixed") and o != "fixed-gsql" else ("api" if o == "fixed-gsql" else "lint_string")
             yield c
         for kind in ("brackets", "unbalanced", "case", "subquery", "functions"):
             for n_, limits in ((12, {}), (45, {}), (400, {}), (650, {}), (1500, {}), (100, {"max_parse_depth": 20}),
